@@ -102,7 +102,7 @@ def zipf_pick(rng, n, skew):
     return n - 1
 
 
-WEIRD_TOKENS = [b"\xc3\xa9t\xc3\xa9", b"a.b", b"-", b"--", b"0", b"1e5", b"\\data\\", b"ngram", b"\\1-grams:", b"<S>", b"</S>", b"<unk", b"s>",
+WEIRD_TOKENS = [b"a\x0bb", b"d\x0cd", b"\xc2\x85", b"\xc2\xa0x", b"\xc3\xa9t\xc3\xa9", b"a.b", b"-", b"--", b"0", b"1e5", b"\\data\\", b"ngram", b"\\1-grams:", b"<S>", b"</S>", b"<unk", b"s>",
                 b"\xff\xfe", b"x" * 40, b"#", b"=", b"\\end\\"]
 
 
@@ -140,7 +140,7 @@ def gen_corpus(rng, big=False):
     style = rng.choice(["zipf", "zipf", "zipf", "tiny", "repeat", "f1", "f1", "uniform", "long", "emptyish"])
     if style == "tiny":
         nsent, types = rng.range(1, 6), rng.range(1, 4)
-    elif big and rng.chance(1, 4):
+    elif big and rng.chance(1, 12):
         nsent, types = rng.range(100, 400), rng.range(20, 60)
     else:
         nsent, types = rng.range(5, 60), rng.range(3, 25)
@@ -181,6 +181,8 @@ def gen_case(rng, big=False):
     sents, vocab, skip = gen_corpus(rng, big)
     data = render(rng, sents, plain=rng.chance(1, 3))
     order = rng.choice([1, 2, 2, 3, 3, 3, 4, 5, 6])
+    if len(sents) > 150 and order > 4:
+        order = rng.choice([2, 3, 4])       # keeps the exact model's run time per case below a few seconds
     prune = None
     if rng.chance(2, 5):
         ln = rng.range(1, order)
